@@ -107,7 +107,7 @@ def check(run):
 
     # ------------------------------------------------------------------ O14.2
     o = run.ob("O14.2", "no derailment: an outstanding request is removed only where the answered data is accepted; NACKs and timeouts re-issue",
-               "removing the request before validation lets one invalid response cancel the retry: repair never completes although peers answer correctly", floor=5)
+               "removing the request before validation lets one invalid response cancel the retry: repair never completes although peers answer correctly", floor=12)
     rem = [c for c in b.calls() if (c.name.endswith("BTreeMap::remove")) and K.is_field(b.operand_term(c.args[0]), "outstanding_requests", "Repair")]
     stores = [c.bb for c in sr] + [c.bb for c in st]
     if not rem:
@@ -117,6 +117,14 @@ def check(run):
         wit = None if paired else b.path_avoiding(c.bb, stores)
         o.check(paired, key + "|paired-with-store", "every path through this removal stores the answered data (no exit between removal and store)", c.span,
                 {"path_to_return_without_store": wit[:12] if wit else None})
+    # unsolicited responses do nothing: whatever handle_response sends, stores or removes happens behind the
+    # "this request is outstanding" test for the response's own request hash
+    acts = [c for c in b.calls() if c.name.endswith("Repair::send_request") or c.name.endswith("Blockstore::add_shred_from_repair")
+            or (c.name.rsplit("::", 1)[-1] in ("insert", "remove") and any(K.is_field(b.operand_term(c.args[0]), f, "Repair") for f in ("outstanding_requests", "slice_roots", "last_slices")))]
+    for c, key in K.ordinal_keys(acts, lambda c: "handle_response|%s" % c.name.rsplit("::", 1)[-1]):
+        g = [a for a in G.guard_atoms(b, c.bb, prog) if a[0] in ("bool", "is_some") and a[2] is True and K.mentions_field(a[1][0], "outstanding_requests", "Repair")
+             and K.mentions_call(a[1][0], "request_type") and K.mentions_call(a[1][0], "hash")]
+        o.check(bool(g), key + "|solicited-only", "reached only when the response answers a request that is outstanding (hash of the response's own request type)", c.span)
     nack = [c for c in b.calls_to(REP + "::send_request") if any(a[0] == "variant" and a[1][1] == frozenset(["Nack"]) for a in G.guard_atoms(b, c.bb, prog))]
     o.check(bool(nack), "handle_response|Nack|retry", "a NACK re-issues the request immediately", b.span)
     for lb in prog.family(REP + "::repair_loop"):
